@@ -1,8 +1,8 @@
 (* C11 — concrete instances showing that the hypotheses of the property theorems are satisfiable (axiom-free). *)
 From Coq Require Import Arith List Bool Lia Field Ring Setoid ZArith QArith Qcanon.
-From QV.Core Require Import OF Sums Mat Cplx QcOF.
+From QV.Core Require Import OF Sums Mat Cplx QcOF C01_HermPsd.
 From QV.Model Require Import QObj C11_Pgdb C11_Cvx.
-From QV.Proofs Require Import C11_Pgdb C11_Metric.
+From QV.Proofs Require Import C11_Pgdb C11_Metric C11_Diameter.
 Import ListNotations.
 
 Section C11_Ex.
@@ -41,6 +41,13 @@ Proof. intros Hc i j _ _. unfold C11_ex_B, C11_delta. destruct (Nat.eqb i j); ap
   - ring.
   - ring.
   - ring. Qed.
+(* the physical set of the universal gap theorem is inhabited: d = 1, basis { [[1]] }, coefficient vector (1) *)
+Definition C11_ex_B1 : nat -> cmat F := fun _ _ _ => (1, 0).
+Lemma C11_ex_state_set : C11_state_set F 1 C11_ex_B1 (fun _ => 1).
+Proof. split.
+  - intros x. rewrite hqf_expand. cbn [sumn]. unfold op_of_vec, C11_ex_B1. cbn [sumn Nat.mul]. destruct (x 0%nat) as [a b]. cbn.
+    replace (_ + _) with (a * a + b * b) by ring. apply add_nonneg; apply sqr_nonneg.
+  - unfold C11_rtrace, op_of_vec, C11_ex_B1. cbn. ring. Qed.
 End C11_Ex.
 
 (* ---- executed instances over Qc *)
